@@ -68,6 +68,9 @@ def rand_box(rng, pts, dims, style=None):
         if style == "strip":
             # a thin slab through one element, long in the other directions: on a rotated grid it picks non-adjacent rows / columns
             x0, x1 = (strip_at[a] - 0.3, strip_at[a] + 0.3) if a == strip_axis else (lo[a] - 1, hi[a] + 1)
+        elif style == "corner-of-rotated":
+            # the low end along the first axis and the high end along the second: where a rotated grid swings out of its unrotated footprint
+            x0, x1 = (lo[a] - 0.5, lo[a] + 2.3) if a == 0 else ((hi[a] - 2.3, hi[a] + 0.5) if a == 1 else (lo[a] - 1, hi[a] + 1))
         elif style == "enclosing":
             x0, x1 = lo[a] - 1, hi[a] + 1
         elif style == "disjoint":
@@ -375,15 +378,26 @@ def do_block(case, rec, rng, ws, dims, inverse, copy):
 
     nu, nv, nz = rng.randint(1, 3), rng.randint(1, 3), rng.randint(1, 2)
     origin = [float(rng.randint(0, 3)), float(rng.randint(0, 3)), float(rng.randint(0, 2))]
-    obj = BlockModel.create(ws, origin=origin, u_cell_delimiters=np.arange(nu + 1) * 2.0, v_cell_delimiters=np.arange(nv + 1) * 2.0, z_cell_delimiters=np.arange(nz + 1) * 2.0, name="b")
+    rot = rng.choice([0.0, 0.0, 40.0, 90.0, -30.0])  # rotated about the vertical axis at the origin (counter-clockwise)
+    if rot:
+        nu, nv = rng.randint(2, 4), rng.randint(2, 4)
+    obj = BlockModel.create(ws, origin=origin, u_cell_delimiters=np.arange(nu + 1) * 2.0, v_cell_delimiters=np.arange(nv + 1) * 2.0, z_cell_delimiters=np.arange(nz + 1) * 2.0, rotation=rot, name="b")
     cent = [None] * (nu * nv * nz)
+    ca, sa = math.cos(math.radians(rot)), math.sin(math.radians(rot))
     for i in range(nu):
         for j in range(nv):
             for k in range(nz):
-                cent[k + i * nz + j * nu * nz] = (origin[0] + 2 * i + 1, origin[1] + 2 * j + 1, origin[2] + 2 * k + 1)
+                u, v = 2 * i + 1, 2 * j + 1
+                cent[k + i * nz + j * nu * nz] = (origin[0] + u * ca - v * sa, origin[1] + u * sa + v * ca, origin[2] + 2 * k + 1) if rot else (origin[0] + u, origin[1] + v, origin[2] + 2 * k + 1)
     vals = grid_values(len(cent))
     obj.add_data({"d": {"values": vals.copy(), "association": "CELL"}})
-    box, style = rand_box(rng, cent, dims)
+    for _try in range(20):
+        box, style = rand_box(rng, cent, dims, style=rng.choice([None, "corner-of-rotated"]) if rot else None)
+        if not rot or all(min(abs(p[a] - box[0][a]), abs(p[a] - box[1][a])) > 1e-6 for p in cent for a in range(dims)):
+            break
+    if rot:
+        style += ":rotated"
+        rec.see("rotated-block-models")
     exp = expect_vertex_mask(cent, box, dims, inverse)
     got = obj.mask_by_extent(np.array(box), inverse=inverse)
     judge_mask(rec, "BlockModel", got, exp, cent, box, dims, inverse, style)
@@ -518,9 +532,12 @@ def do_group(case, rec, rng, ws, dims, inverse, copy):
         return do_hole_group(case, rec, rng, ws, dims, inverse)
     g = ContainerGroup.create(ws, name="grp")
     all_pts, kids = [], []
+    nested = rng.random() < 0.4  # project -> areas -> objects: the clipped group itself holds no object
+    if nested:
+        rec.see("groups-of-groups")
     for k in range(rng.randint(1, 3)):
         pts = lattice_points(rng, rng.randint(2, 5))
-        Points.create(ws, parent=g, vertices=np.array(pts), name=f"k{k}")
+        Points.create(ws, parent=ContainerGroup.create(ws, parent=g, name=f"area{k}") if nested else g, vertices=np.array(pts), name=f"k{k}")
         kids.append(pts)
         all_pts += pts
     box, style = rand_box(rng, all_pts, dims)
@@ -534,12 +551,17 @@ def do_group(case, rec, rng, ws, dims, inverse, copy):
             want[f"k{k}"] = [p for p, mm in zip(pts, m) if mm]
     got = {}
     if new is not None:
-        for c in new.children:
+        stack = list(new.children)
+        while stack:
+            c = stack.pop()
+            if hasattr(c, "children") and not hasattr(c, "vertices"):
+                stack.extend(c.children)
+                continue
             v = getattr(c, "vertices", None)
             if v is not None and len(v):
                 got[c.name] = [tuple(x) for x in v.tolist()]
-    rec.check("C13.copy-geom", got == want, op="copy_from_extent", cls="Group", attr=f"{dims}d{':inverse' if inverse else ''}", detail=f"group copy holds {got} expected {want}; box={box}")
-    return ["Group", style, dims, inverse]
+    rec.check("C13.copy-geom", got == want, op="copy_from_extent", cls="Group", attr=f"{'nested:' if nested else ''}{dims}d{':inverse' if inverse else ''}", detail=f"group copy holds {got} expected {want}; box={box}")
+    return ["Group", style, dims, inverse, nested]
 
 
 def do_hole_group(case, rec, rng, ws, dims, inverse):
